@@ -491,6 +491,14 @@ def nonneg(e, flow, depth=0):
         x, y = e["a"]
         if _same(x, y, flow):
             return "square of %s" % render(x, flow)[:30]
+        fs = _factors(e)
+        if len(fs) > 2:
+            cnt = {}
+            for f in fs:
+                r = norm_render(f, flow)
+                cnt[r] = cnt.get(r, 0) + 1
+            if all(v % 2 == 0 for v in cnt.values()):
+                return "product of even powers"
         nx, ny = nonneg(x, flow, depth + 1), nonneg(y, flow, depth + 1)
         return "product of non-negatives (%s; %s)" % (nx, ny) if nx and ny else None
     if k == "bin" and e.get("op") == "+":
@@ -530,6 +538,15 @@ def nonneg(e, flow, depth=0):
         if n == "max" and len(e.get("a", [])) == 2 and (nonneg(e["a"][0], flow, depth + 1) or nonneg(e["a"][1], flow, depth + 1)):
             return "max with a non-negative"
     return None
+
+
+def _factors(e):
+    e = strip(e)
+    if e.get("k") == "bin" and e.get("op") == "*":
+        return _factors(e["a"][0]) + _factors(e["a"][1])
+    if e.get("k") == "mcall" and e.get("n") == "clone" and not e.get("a"):
+        return _factors(e["r"])
+    return [e]
 
 
 def positive(e, flow, depth=0):
@@ -573,6 +590,8 @@ def positive(e, flow, depth=0):
             return "root of a positive"
         if n in ("from_f64", "from_scalar") and e.get("a"):
             return positive(e["a"][0], flow, depth + 1)
+        if n == "one" and not e.get("a"):
+            return "one() > 0"
     return None
 
 
@@ -658,8 +677,137 @@ def run(F, rep, tier="quick", extra=None, only=None):
     rep.ob("DIV", "division sites", True, "%d constant, %d guarded by is_valid_divisor / != 0 on the same divisor, %d positive by shape, %d justified in the reviewed table" % (n_const, n_guard, n_pos, n_table))
     rep.floor("division sites in the anchored files", n_const + n_guard + n_table + n_open + n_pos, 192)
     rep.floor("guarded division sites", n_guard, 43)
+    check_domains(F, rep)
     check_panics(F, rep)
     return {"level": "other", "explanation": EXPLANATION}
+
+
+# ------------------------------------------------------------------------------------ DOM: arguments of partial real functions
+# function -> (what its argument must satisfy, prover)
+DOMAIN = {"sqrt": (">= 0", "nonneg"), "ln": ("> 0", "positive"), "log": ("> 0", "positive"), "log2": ("> 0", "positive"), "log10": ("> 0", "positive"),
+          "powf": ("base >= 0", "nonneg"), "acos": ("in [-1, 1]", None), "asin": ("in [-1, 1]", None)}
+
+# (function key suffix, callee, normalised argument) -> why the argument is inside the domain on the property's inputs
+DOM_TABLE = {
+    ("blend::blend::soft_light_blend", "sqrt", "dst"):
+        "backdrop component: the property's blend inputs are in [0, 1]; the arm is selected only for 4*dst > 1 (lazy_select!)",
+    ("cam16::math::xyz_to_cam16", "powf", "(((+ (b_a * from_f64(0.05)) + (from_f64(2.0) * r_a) + g_a) * from_scalar(parameters.n_bb)) / from_scalar(parameters.a_w))"):
+        "A / A_w: the achromatic response of a colour with non-negative cone responses over that of the white; negative only for imaginary colours "
+        "(negative adapted cone signals), where CAM16 is undefined",
+    ("cam16::math::xyz_to_cam16", "powf", "(((+ (a * a) + (b * b)).sqrt() * (from_f64(5e4) / from_f64(13.0)) * e_t * from_scalar(parameters.n_c) * from_scalar(parameters.n_cb)) / (+ (b_a * from_f64(1.05)) + from_f64(0.305) + g_a + r_a))"):
+        "t: sqrt(..) >= 0, e_t = (cos + 3.8)/4 > 0, N_c, N_cb > 0, denominator = sum of the adapted signals + 0.305 > 0 for real colours",
+    ("cam16::math::xyz_to_cam16", "powf", "(- from_f64(0.29).powf(from_scalar(parameters.n)) + from_f64(1.64))"):
+        "1.64 - 0.29^n with n = Y_b / Y_w > 0: 0.29^n in (0, 1), so the base is in (0.64, 1.64)",
+    ("cam16::math::calculate_saturation", "sqrt", "((alpha * param_c) / (+ from_f64(4.0) + param_a_w))"):
+        "c * alpha / (A_w + 4): c in [0.525, 0.69], A_w > 0, alpha = t^0.9 * (..)^0.73 >= 0 (product of real powers of non-negatives)",
+    ("cam16::math::non_black_cam16_to_xyz", "powf", "((- from_f64(0.29).powf(from_scalar(parameters.n)) + from_f64(1.64)).powf(from_f64(-0.73)) * alpha)"):
+        "alpha >= 0 (from chroma / colourfulness / saturation >= 0 over sqrt(J) > 0, black excluded by the caller) times a positive power",
+    ("cam16::math::non_black_cam16_to_xyz", "powf", "(- from_f64(0.29).powf(from_scalar(parameters.n)) + from_f64(1.64))"):
+        "1.64 - 0.29^n with n > 0: base in (0.64, 1.64)",
+    ("cam16::math::non_black_cam16_to_xyz", "powf", "j_root"):
+        "J_root = sqrt(J)/10 or derived from Q >= 0: a square root or a quotient of non-negatives; black (J = 0) excluded by the caller",
+    ("cam16::math::prepare_parameters", "powf", "(from_f64(5.0) * parameters.adapting_luminance)"):
+        "5 L_A: the adapting luminance is a physical luminance (cd/m^2), non-negative",
+    ("cam16::math::prepare_parameters", "powf", "f_l"):
+        "F_L = k^4 L_A + 0.1 (1 - k^4)^2 (5 L_A)^(1/3): non-negative terms for L_A >= 0",
+    ("cam16::math::prepare_parameters", "sqrt", "(y_b / y_w)"):
+        "n = Y_b / Y_w: background and white luminance factors, positive",
+    ("cam16::math::prepare_parameters", "powf", "(y_b / y_w)"):
+        "n = Y_b / Y_w > 0",
+    ("cam16::math::lightness_to_j_root", "sqrt", "lightness"):
+        "CAM16 lightness J >= 0 on the property's inputs (documented range 0..100)",
+    ("cam16::math::Adapt::<T>::run", "powf", "(component.abs() * from_f64(0.01) * from_scalar(self.f_l))"):
+        "F_L * |component| / 100 with F_L >= 0 (see prepare_parameters) and an absolute value",
+    ("cam16::math::Unadapt::<T>::run", "powf", "(component.abs() / (- component.abs() + from_f64(400.0)))"):
+        "|c| / (400 - |c|): the adapted response is bounded by 400 (the forward model's 400 x/(x + 27.13) < 400), so the quotient is >= 0 "
+        "for every value the forward model produces; |c| >= 400 is outside CAM16's range",
+    ("<C as color_difference::ImprovedCiede2000>::improved_difference", "powf", "self.difference(other)"):
+        "a CIEDE2000 difference: the square root of a positive semi-definite form (see get_ciede2000_difference), >= 0",
+    ("color_difference::get_ciede2000_difference", "sqrt", "(c_bar.powi(7) / (+ c_bar.powi(7) + from_f64(6103515625.0)))"):
+        "C-bar^7 / (C-bar^7 + 25^7) with C-bar = mean of two chromas >= 0",
+    ("color_difference::get_ciede2000_difference", "sqrt", "(+ ((delta_big_h_prime * delta_c_prime * r_t) / (k_c * k_h * s_c * s_h)) + ((delta_big_h_prime / (k_h * s_h)) * (delta_big_h_prime / (k_h * s_h))) + ((delta_c_prime / (k_c * s_c)) * (delta_c_prime / (k_c * s_c))) + ((delta_l_prime / (k_l * s_l)) * (delta_l_prime / (k_l * s_l))))"):
+        "x^2 + y^2 + z^2 + R_T y z with |R_T| = |sin(2 dTheta)| R_C <= sin(60 deg) * 2 < 1.74 < 2 (dTheta <= 30 deg, R_C < 2): positive "
+        "semi-definite with margin (1 - |R_T|/2) >= 0.13, far above rounding",
+    ("color_difference::EuclideanDistance::distance", "sqrt", "self.distance_squared(other)"):
+        "distance_squared is a sum of squares in every impl (C09 ALG-REF euclid:* checks the closed form)",
+    ("<lab::Lab<Wp, T> as color_difference::ImprovedDeltaE>::improved_delta_e", "powf", "self.distance_squared(other)"):
+        "distance_squared is a sum of squares (C09 ALG-REF)",
+    ("<luv::Luv<Wp, T> as FromColorUnclamped<xyz::Xyz<Wp, T>>>", "powf", "(color.y / w.y)"):
+        "inside `if y_r > epsilon` (epsilon = (6/29)^3 > 0)",
+    ("ok_utils::ChromaValues::<T>::from_normalized", "sqrt", "(one() / (+ (one() / (c_a * c_a * c_a * c_a)) + (one() / (c_b * c_b * c_b * c_b))))"):
+        "1 / (1/c_a^4 + 1/c_b^4): even powers, the sum of reciprocals is positive (or +inf at lightness 0 / 1, giving 0)",
+    ("ok_utils::ChromaValues::<T>::from_normalized", "sqrt", "(one() / (+ (one() / (c_a * c_a)) + (one() / (c_b * c_b))))"):
+        "1 / (1/c_a^2 + 1/c_b^2): squares, positive",
+    ("ok_utils::toe", "sqrt", "(+ (((+ k_1 + one()) / (+ k_2 + one())) * from_f64(0.03) * from_f64(4.0) * oklab_lightness) + (+ (k_3 * oklab_lightness) - k_1).powi(2))"):
+        "(k3 L - k1)^2 + 4 k2 k3 L with k2, k3 > 0 and Oklab lightness L >= 0 on the property's inputs (for L < 0 the radicand stays positive "
+        "down to L ~ -0.0126: discriminant of the quadratic)",
+}
+
+
+def dom_sites(F):
+    for b in F.bodies:
+        if b["file"] not in ANCHORED:
+            continue
+        if "::test" in b["path"] or "::tests::" in b["path"] or b["path"].endswith("::test"):
+            continue
+        if re.match(r"^<(f32|f64) as num::", b["path"]):
+            continue  # the operator table itself: `impl Sqrt for f32 { fn sqrt(self) { self.sqrt() } }`
+        flow = Flow(F, b, ["self"])
+        for n, parents in facts.walk(b["body"]):
+            arg = name = None
+            if n.get("k") == "mcall" and n["n"] in DOMAIN:
+                arg, name = n["r"], n["n"]
+            elif n.get("k") == "call" and isinstance(n.get("c"), dict) and n["c"].get("n") in DOMAIN and n.get("a") and "k" not in n["c"]:
+                arg, name = n["a"][0], n["c"]["n"]
+            if arg is not None:
+                yield b, flow, n, parents, arg, name
+
+
+def check_domains(F, rep):
+    """DOM: sqrt / ln / powf / acos / asin are partial over the reals: a negative radicand or base is NaN.  Every call site in the anchored files
+    has an argument that is a constant inside the domain, non-negative / positive by its shape, or listed in the reviewed table."""
+    n_const = n_shape = n_table = n_open = 0
+    used = set()
+    seen = set()
+    for b, flow, n, parents, arg, name in dom_sites(F):
+        loc = F.loc(b, n)
+        what, prover = DOMAIN[name]
+        cv = const_value(arg, flow)
+        if cv is not None:
+            ok = cv >= 0 if prover == "nonneg" else cv > 0 if prover == "positive" else -1 <= cv <= 1
+            if ok:
+                n_const += 1
+                continue
+        why = nonneg(arg, flow) if prover == "nonneg" else positive(arg, flow) if prover == "positive" else None
+        key = fn_key(b)
+        if why:
+            n_shape += 1
+            sk = "%s: %s(%s)" % (key, name, render(arg, flow)[:60])
+            if sk not in seen:
+                seen.add(sk)
+                rep.ob("DOM-SHAPE", sk, True, "argument %s by its shape: %s" % (what, why), loc)
+            continue
+        nr = norm_render(arg, flow)
+        hit = None
+        for (fk, fn, dk) in DOM_TABLE:
+            if fn == name and (key == fk or key.endswith(fk) or fk in key) and dk == nr:
+                hit = (fk, fn, dk)
+                break
+        if hit:
+            if hit not in used:
+                rep.ob("DOM-TABLE", "%s: %s(%s)" % (hit[0], name, hit[2][:70]), True, "reviewed: " + DOM_TABLE[hit], loc)
+            used.add(hit)
+            n_table += 1
+            continue
+        n_open += 1
+        rep.fail("DOM", "%s: %s(%s)" % (key, name, nr),
+                 "the argument of %s must be %s; `%s` is neither a constant in the domain, nor of a shape that guarantees it (sum of squares, abs, "
+                 "max with 0, ...), nor in the reviewed table: rounding or a degenerate input can push it outside (NaN)" % (name, what, render(arg, flow)), loc)
+    for hit in DOM_TABLE:
+        if hit not in used:
+            rep.fail("DOM-TABLE", "%s: %s(%s)" % hit, "reviewed table entry matches no call site any more (the code changed: re-review)")
+    rep.ob("DOM", "partial-function call sites", True, "%d constant, %d inside the domain by shape, %d justified in the reviewed table" % (n_const, n_shape, n_table))
+    rep.floor("sqrt/ln/powf/acos/asin call sites in the anchored files", n_const + n_shape + n_table + n_open, 36)
 
 
 def check_panics(F, rep):
